@@ -192,7 +192,8 @@ CLAIMED.update({
             "shared reads imply every thread observes its solo run; validate on a clean image writes nothing; every mutable global of "
             "the compiled library (regenerated from the clang AST, cross-checked with nm on the fresh archive) is classified "
             "const / thread-local / written-once-by-constructor / diagnostic by a decide over the regenerated list; ThreadSanitizer "
-            "build with 2-16 threads on ~110 recorded schedules, per-request digests equal to the solo run.",
+            "build with 2-16 threads on ~110 recorded schedules, per-request digests equal to the solo run; the threads' destinations "
+            "(six formats incl. 24 bpp) lie back to back in memory, so a store outside the own pixel storage races with a neighbour.",
             TB + "Partial: the C memory model, the scheduler and accesses inside a call are not modelled; the footprint table is tied to "
             "the code by TSan on executed schedules and a write-set correspondence only.",
             "Lean 4 commutation proof (any interleaving) + regenerated global-state classification (clang AST, nm cross-check) + "
@@ -228,7 +229,8 @@ CLAIMED.update({
             "sound for every pixel of the extents, walk exact and wrap-free incl. the overshoot, unrepresentable => dropped, repeat in "
             "[0,size), pad bounds, allocation sizes exact or NULL, no assert reachable; white-box correspondence on ~3e5 "
             "boundary-constructed requests with an exact __int128 oracle; ~6e5 drawing requests per run on exact-size buffers flush "
-            "against PROT_NONE guard pages over 5 implementation chains (ASan sweep in the thorough tier).",
+            "against PROT_NONE guard pages over 5 implementation chains, incl. destination-edge requests for every fast-path destination "
+            "format (ASan sweep in the thorough tier).",
             TB + "Also proved: the bilinear NORMAL-repeat split reads only inside the row (bounds regenerated from pixman-inlines.h), "
             "the trapezoid rasterisers stay inside columns [0,width) of rows [0,height) for arbitrary edge state (clamps regenerated "
             "from pixman-edge*.c / pixman-trap.c and bridged by rfl), projective interiors within the corner hull plus one unit of "
